@@ -70,6 +70,11 @@ class C19(Check):
                 muts.append({"op": "delete", "agent": rng.choice(imported), "k": rng.randrange(1, ncfg + 1)})
         elif imported and m < 0.55:
             muts.append({"op": "drop_agent", "agent": rng.choice(imported)})
+        elif imported and m < 0.67:
+            # a whole epoch lost: no imported agent has a row there (a truncated or coarser importer file)
+            k = rng.randrange(1, ncfg + 1)
+            for a in imported:
+                muts.append({"op": "delete", "agent": a, "k": k})
         if rng.random() < 0.5:
             muts.append({"op": "add_agents", "n": rng.choice([1, 2, 5, 20])})
         if imported and rng.random() < 0.25:
